@@ -30,13 +30,14 @@ type Call struct {
 }
 
 type C14Case struct {
-	SegSize int    `json:"seg"`
-	PreN    int    `json:"preN"`    // entries appended before (one per batch)
-	PreDel  int    `json:"preDel"`  // head entries deleted before
-	Calls   []Call `json:"calls"`   // concurrent calls; Close is added as the last worker
-	Choices []int  `json:"choices"` // schedule
-	Target  int    `json:"target"`  // worker whose window Close should fall into (bias)
-	HoldAt  int    `json:"holdAt"`  // how many points the target passes before Close is driven
+	SegSize  int    `json:"seg"`
+	PreN     int    `json:"preN"`     // entries appended before (one per batch)
+	PreDel   int    `json:"preDel"`   // head entries deleted before
+	Calls    []Call `json:"calls"`    // concurrent calls; Close is added as the last worker
+	Choices  []int  `json:"choices"`  // schedule
+	Target   int    `json:"target"`   // worker whose window Close should fall into (bias)
+	HoldAt   int    `json:"holdAt"`   // how many points the target passes before Close is driven
+	CloseErr bool   `json:"closeErr"` // the MetaStore's Close reports an error (it is closed all the same)
 }
 
 var readKinds = []string{"getlog", "first", "last", "get"}
@@ -68,6 +69,7 @@ func genC14(t *rapid.T) C14Case {
 	}
 	c.Target = rapid.IntRange(0, len(c.Calls)-1).Draw(t, "target")
 	c.HoldAt = rapid.IntRange(1, 14).Draw(t, "holdAt")
+	c.CloseErr = rapid.IntRange(0, 4).Draw(t, "closeErr") == 0
 	return c
 }
 
@@ -95,6 +97,9 @@ func runC14(c C14Case) (res common.Result) {
 	defer hookMu.Unlock()
 	fs := simfs.New()
 	cfg := kit.Cfg{SegSize: c.SegSize, FS: fs}
+	if c.CloseErr {
+		cfg.MetaCloseErr = errors.New("injected meta store close error")
+	}
 	w, err := cfg.Open()
 	if err != nil {
 		res.Fail = common.Failf("open-fresh", "%v", err)
@@ -228,6 +233,9 @@ func runC14(c C14Case) (res common.Result) {
 	if closeInside {
 		cls["close-inside-call-window"] = true
 	}
+	if c.CloseErr {
+		cls["metastore-close-error"] = true
+	}
 	defer func() {
 		for k := range cls {
 			res.Classes = append(res.Classes, k)
@@ -315,7 +323,12 @@ func runC14(c C14Case) (res common.Result) {
 				res.Fail = common.Failf("wrong-error/"+r.call.K, "%sIndex racing with Close returned %q", r.call.K, r.err)
 				return
 			}
-		case "get", "set", "store", "storeseal", "delhead", "deltail", "close":
+		case "close":
+			if bad(r.err) && !(c.CloseErr && cfg.MetaCloseErr != nil && errors.Is(r.err, cfg.MetaCloseErr)) {
+				res.Fail = common.Failf("wrong-error/close", "Close returned %q", r.err)
+				return
+			}
+		case "get", "set", "store", "storeseal", "delhead", "deltail":
 			if bad(r.err) {
 				res.Fail = common.Failf("wrong-error/"+r.call.K, "%s racing with Close returned %q (neither success nor ErrClosed); schedule: %v", r.call.K, r.err, ctl.Trace)
 				return
